@@ -751,6 +751,22 @@ def segment_tag_scan_cells(ctx, R, hooks):
                               % (tag, len(data)),
                               "gives %r, expected %s: the tag is not counted "
                               "as a tag" % (out[1], want.short))
+    # ... and only the fields after the positional ones can be tags: a
+    # segment name that looks like a tag (ab:Z:x is a valid name) is a name
+    for nm in ("ab:Z:x", "x1:A:3", "12:i:7"):
+        for data, want in (
+                (["S", nm, "*"], seg1), (["S", nm, "10", "*"], seg2),
+                (["S", nm, "*", "LN:i:3"], seg1),
+                (["S", nm, "10", "*", "xx:Z:a b"], seg2)):
+            ctx.instance(R)
+            out = eval_function(repo, fs, [data], hooks=hooks)
+            ok = out[0] == "return" and out[1] is want
+            ctx.oblige(ok)
+            if not ok:
+                ctx.violation(R, fs.short, "segment named %r (%d fields)"
+                              % (nm, len(data)),
+                              "gives %r, expected %s: the name is a "
+                              "positional field" % (out[1], want.short))
     for node, pat, mode in regex_sites(fs):
         if pat is None:
             continue
